@@ -147,7 +147,13 @@ func (t *c19Task) run(op c19Op, sh *c19Shared) (res string) {
 		env := newEnvNode(false, nil)
 		env.Set("FOO", "foo-value")
 		env.Set("BAR", "bar")
-		err := t.pl.Interpolate(env, op.arg == 1)
+		var err error
+		if op.arg%4 == 3 {
+			// no caller environment: the library works on a private one of its own
+			err = t.pl.Interpolate(nil, op.arg == 3)
+		} else {
+			err = t.pl.Interpolate(env, op.arg == 1)
+		}
 		return observe(t.pl, func() string {
 			b, _ := json.Marshal(t.pl)
 			return fmt.Sprintf("interpolated err=%v %s", err != nil, hashBytes(b))
